@@ -286,6 +286,13 @@ fn fn_templates() -> Vec<FnTemplate> {
             RType::map(RType::Bytes),
             RType::map(RType::Bytes),
         ),
+        t1(
+            "idmt",
+            Sem::Ident,
+            Field,
+            RType::map(RType::Bool),
+            RType::map(RType::Bool),
+        ),
         t1("lens", Sem::Len, Both, RType::Bytes, RType::Int),
         t1("lenls", Sem::Len, Field, a(RType::Bytes), RType::Int),
         t1("lenln", Sem::Len, Field, a(RType::Int), RType::Int),
